@@ -64,11 +64,15 @@ void op_payload(const Op &o, std::vector<uint8_t> &out) {
 
 int Model::expect(const Op &o) const {
     switch (o.kind) {
-        case OP_SRC: return (o.src < 0 || o.src > 255 || sources.count(o.src)) ? 1 : 0;
+        case OP_SRC:
+            if (o.src < 0 || o.src > 255 || sources.count(o.src)) return 1;
+            for (int k = 0; k < 5; ++k) if (o.sl[k] >= (1 << 20) - 16) return 2;     // a string of about one string block: an implementation limit may refuse it
+            return 0;
         case OP_SIG:
             if (o.sig < 0 || o.sig > 255 || o.src < 0 || o.src > 255) return 1;
             if (signals.count(o.sig) || !sources.count(o.src)) return 1;
             if (o.sigtype == 0 && o.p[0] == 0) return 1;     // FSR requires a sample rate
+            for (int k = 0; k < 2; ++k) if (o.sl[k] >= (1 << 20) - 16) return 2;
             return 0;
         case OP_FSR: case OP_OMIT: case OP_UTC: {
             auto it = signals.find(o.sig);
